@@ -95,6 +95,10 @@ def run_sim(desc, out):
     case = {"seed": desc["seed"], "idx": desc["idx"], "markets": [{"id": mf.market_id, "text": mf.text()} for mf in mfs], "strategies": strategies, "clients": [{"username": "sim%d" % i} for i in range(ncl)]}
     if ev:
         case["event_processing"] = True
+    # listener filters drop OPEN updates only: a closing update always reaches the framework
+    lk = rng.choice(({}, {}, {"max_inplay_seconds": 2}, {"inplay": True}, {"seconds_to_start": 30}, {"inplay": False}, {"max_inplay_seconds": 0.5, "seconds_to_start": 600})) if not desc.get("directed_first_closed") else {}
+    if lk:
+        case["listener_kwargs"] = dict(lk)
     empty_filter = rng.random() < 0.4
     got_empty = []
 
@@ -121,6 +125,13 @@ def run_sim(desc, out):
     recv = {s.name: [r for r in s.received if r[0] == "closed"] for s in tr.strategies}
     shape_tag = "+".join(sorted(set(shapes)))
     out.d("c20:%s:%d:%d:%s:%s" % (shape_tag, ns, ncl, ev, empty_filter))
+    delivered = {(tk["market"], tk["pt"]) for tk in tr.ticks if tk["status"] == "CLOSED"}
+    for m_, sn in snaps.items():
+        for s_ in sn:
+            if s_["status"] == "CLOSED":
+                out.rule("closing-line")
+                if (m_, s_["pt"]) not in delivered:
+                    out.v("closing-update-never-delivered", {"filters": ",".join(sorted(lk)) or "-"}, market=m_, pt=s_["pt"])
     seen_open = set()
     for i, tk in enumerate(tr.ticks):
         if tk["status"] != "CLOSED":
